@@ -184,27 +184,40 @@ def run_case(case, rec, log, rng):
         return None
     # (ii) the kernel's arguments == oracle's per-index parameters
     calls = [c for c in log if c[0] in ("indexed", "on_index")]
-    if len(calls) != 1:
-        rec.violation("kernel-call-count", ctx, f"{len(calls)} kernel calls for one matrix")
-        return None
-    name, args = calls[0]
+    # the kernel-argument monitor is a diagnostic that presupposes today's call structure (one call, one parameter row
+    # per global index); when the structure differs the verdict rests on the returned matrix alone (judged below)
+    structure = len(calls) == 1
+    if structure:
+        name, args = calls[0]
+        try:
+            structure = (len(args[3]) == len(g) and len(args[4]) == len(g) and len(args[0]) == len(g)) if idxdep else np.ndim(args[0]) == 2
+        except Exception:  # noqa
+            structure = False
+    if not structure:
+        rec.count("kernel_argument_monitor_not_applicable")
     worst = 0.0
     nontrivial = False
     for i in range(len(g) if idxdep else 1):
         c, w, sc = oracle_index_parameters(case, i)
         rec.count("index_parameter_sets_compared")
-        if idxdep:
-            kc, kw, ks = args[3][i], args[4][i], np.asarray(args[5], dtype=float)
-            kout = args[0][i]
-        else:
-            kc, kw, ks = np.asarray(args[3], dtype=float), np.asarray(args[4], dtype=float), np.asarray(args[5], dtype=float)
-            kout = args[0]
-        if kc.shape != c.shape or not (np.allclose(kc, c, rtol=1e-13, atol=1e-15) and np.allclose(kw, w, rtol=1e-13, atol=1e-15) and np.allclose(ks, sc, rtol=1e-14)):
-            rec.violation(f"index-parameters:{'shift' if case['shift'] else ''}{'+disp' if case['kind'].startswith('spectral') else ''}", ctx,
-                          f"index {i} (lambda {g[i]}): kernel got centres {kc}, widths {kw}, scales {ks}; documented effective values {c}, {w}, {sc}")
-            return None
-        # (i) kernel output pointwise (before normalisation: kernel sums scale_g * conv)
         norm = float(np.sum(sc)) if case["normalize"] else 1.0
+        if structure:
+            if idxdep:
+                kc, kw, ks = args[3][i], args[4][i], np.asarray(args[5], dtype=float)
+                kout = args[0][i]
+            else:
+                kc, kw, ks = np.asarray(args[3], dtype=float), np.asarray(args[4], dtype=float), np.asarray(args[5], dtype=float)
+                kout = args[0]
+            if kc.shape != c.shape or not (np.allclose(kc, c, rtol=1e-13, atol=1e-15) and np.allclose(kw, w, rtol=1e-13, atol=1e-15) and np.allclose(ks, sc, rtol=1e-14)):
+                rec.violation(f"index-parameters:{'shift' if case['shift'] else ''}{'+disp' if case['kind'].startswith('spectral') else ''}", ctx,
+                              f"index {i} (lambda {g[i]}): kernel got centres {kc}, widths {kw}, scales {ks}; documented effective values {c}, {w}, {sc}")
+                return None
+        else:
+            # judge the RETURNED matrix against the convolution at the oracle's own effective parameters
+            kc, kw, ks = c, w, sc
+            mi = matrix[i] if idxdep else matrix
+            kout = np.column_stack([mi[:, labels.index(comps[r])] for r in range(nr)]) * norm * nr
+        # (i) kernel output pointwise (before normalisation: kernel sums scale_g * conv)
         for r in range(nr):
             sl, wi, wref, nmp = I.judge_column(kout[:, r] / norm, float(rates[r]), t, list(kw), list(kc), list(ks), rng=rng, factor=1.0 / norm)
             rec.count("kernel_points_judged", len(t))
